@@ -303,9 +303,15 @@ class DAGRunConcurrentManager(DAGRunManagerLike):
 
             branch_nodes[edge.get(EdgeField.case_branch)] = pred_id
 
+        try:
+            case_node_id = branch_nodes[selected_branch_label]
+        except TypeError:
+            # An unhashable label (a list, a dict) cannot match any case either
+            raise KeyError(selected_branch_label) from None
+
         self._node_storage.set_switch_result(
             switch_node_id,
-            CaseResult(label=selected_branch_label, node_id=branch_nodes[selected_branch_label]),
+            CaseResult(label=selected_branch_label, node_id=case_node_id),
         )
 
     async def _execute_node(
